@@ -8,10 +8,15 @@ package simhook
 import (
 	"context"
 	"net"
+	"sync"
 )
 
 // Enabled reports whether hooks are compiled in.
 const Enabled = false
+
+// Mutex is a plain [sync.Mutex] in regular builds. It marks locks which are
+// held while waiting for the network or for time to pass.
+type Mutex = sync.Mutex
 
 // At is a scheduling point (no-op).
 func At(point string, detail ...string) {}
